@@ -248,7 +248,11 @@ def run(ctx, scratch):
         """All entry points on the square pattern (n, E)."""
         E = sorted(set(E))
         sym = is_sym(E)
-        m = mspec(n, n, E, dtype=rng.choice(['int', 'int', 'float']))
+        dt = rng.choice(['int', 'int', 'float'])
+        # float storage: one weight for every edge, of any magnitude (the entry points read only the pattern: an arc of weight 1e-9
+        # is an arc, and a digraph with such arcs is not an undirected graph)
+        wv = rng.choice([1, 1, 2.5, 1e-9, 2.0 ** -40, 1e12]) if dt == 'float' else 1
+        m = mspec(n, n, E, dtype=dt, w=None if wv == 1 else {e: wv for e in E})
         base = dict(n=n, E=E, sym=sym)
         for connection in ('weak', 'strong'):
             a = dict(m=m, connection=connection)
